@@ -12,10 +12,20 @@ for id in $ids; do
   lid=$(echo $id | tr A-Z a-z)
   if ls harness/factextract/facts_${lid}*.go >/dev/null 2>&1; then
     extra=$(python3 -c "import json;print(' '.join(json.load(open('props/$id.json')).get('facts_extra', [])))")
-    (cd harness/factextract && go build -o ../../build/factextract_$id main.go irlib.go $(ls facts_${lid}*.go) $extra)
-    build/factextract_$id -repo /repo -out lean/EgVerif/Gen
+    if (cd harness/factextract && go build -o ../../build/factextract_$id main.go irlib.go $(ls facts_${lid}*.go) $extra); then
+      build/factextract_$id -repo /repo -out lean/EgVerif/Gen || echo "setup: fact extraction for $id failed (its check reports it)"
+    else
+      echo "setup: the fact extractor of $id does not build (its check reports it)"
+    fi
   fi
   targets="$targets EgVerif.Props.$id egjudge-$id"
 done
-bin/lk build EgVerif $targets
-echo "setup ok"
+# A property whose proofs do not build must not take the others down: its own check rebuilds and reports
+# the broken obligation. So build everything that builds and go on.
+if bin/lk build EgVerif $targets; then
+  echo "setup ok"
+else
+  echo "setup: some Lean targets failed to build (see above); every check rebuilds its own targets and reports a broken obligation itself"
+  for id in $ids; do bin/lk build EgVerif.Props.$id egjudge-$id >/dev/null 2>&1 || echo "setup: $id does not build"; done
+  echo "setup done (with build failures)"
+fi
